@@ -24,7 +24,10 @@ def main(argv=None) -> int:
         print(f"no check for {pid}: {e}", file=sys.stderr)
         return 2
     if a.replay:
-        return int(mod.replay(a.replay) or 0)
+        if hasattr(mod, "replay"):
+            return int(mod.replay(a.replay) or 0)
+        from .replay import generic_replay
+        return generic_replay(a.replay)
     ctx = Ctx(pid, a.tier, seed)
     try:
         level, rule, exhaustive = mod.run(ctx)
